@@ -242,12 +242,15 @@ pub fn expect(class: &str, prop: &str) -> Option<Expect> {
 /// name and (if different) its serialized name. Chosen deterministically
 /// (lexicographically smallest class, then property).
 pub fn known_property_for(ty: VariantType) -> Option<(String, String, String)> {
+    // plainly serializing properties first; types that only occur on properties stored under
+    // another descriptor (Attributes, Tags, MaterialColors ...) fall back to those
+    known_property_pass(ty, false).or_else(|| known_property_pass(ty, true))
+}
+
+fn known_property_pass(ty: VariantType, serializes_as: bool) -> Option<(String, String, String)> {
     let d = db();
-    let mut classes: Vec<&String> = Vec::new();
-    let names: Vec<String> = d.classes.keys().map(|k| k.to_string()).collect();
-    let mut names = names;
+    let mut names: Vec<String> = d.classes.keys().map(|k| k.to_string()).collect();
     names.sort();
-    let _ = &mut classes;
     for cname in &names {
         let c = &d.classes[cname.as_str()];
         let mut props: Vec<&str> = c.properties.keys().map(|k| k.as_ref()).collect();
@@ -263,12 +266,18 @@ pub fn known_property_for(ty: VariantType) -> Option<(String, String, String)> {
                 if vt != ty {
                     continue;
                 }
+                if p == "UniqueId" || p == "Name" {
+                    continue;
+                }
                 match serialization {
-                    PropertySerialization::Serializes => {
-                        if p == "UniqueId" || p == "Name" {
-                            continue;
+                    PropertySerialization::Serializes if !serializes_as => return Some((cname.clone(), p.to_owned(), p.to_owned())),
+                    PropertySerialization::SerializesAs(other) if serializes_as => {
+                        // only where the stored descriptor is an alias of this very property
+                        if let Lookup::Known(k) = lookup(cname, other) {
+                            if k.canonical == p {
+                                return Some((cname.clone(), p.to_owned(), other.to_string()));
+                            }
                         }
-                        return Some((cname.clone(), p.to_owned(), p.to_owned()));
                     }
                     _ => continue,
                 }
